@@ -802,6 +802,7 @@ func c05RunShard(r *ev.Run, bin string, sh c05Shard, thorough string, bases []c0
 				r.Eval(a)
 				r.NontrivialN(a)
 				r.Trans(b)
+				r.Outcome("survived:" + sh.family)
 				r.Add("slow_operations_over_1s_cpu", int64(c))
 				done = true
 			case strings.HasPrefix(line, "V "):
